@@ -19,7 +19,8 @@
 EXTENDS Integers, FiniteSets, Sequences, TLC
 
 CONSTANTS Objs,            \* object identities
-          HugeAvailable    \* does the OS grant large pages
+          HugeAvailable,   \* does the OS grant large pages
+          DeallocEarlyOut  \* FALSE = the code as it is; TRUE = deallocCache returning early without memory (defect variant)
 
 Ops == {"alloc_cache", "alloc_dataset", "create_vm"}
 Flags == [jit : BOOLEAN, large : BOOLEAN]
@@ -51,17 +52,46 @@ FirstFailure(steps, failAt) ==
   IN  IF bad = {} THEN 0 ELSE CHOOSE i \in bad : \A j \in bad : i <= j
 
 (***************************************************************************)
-(* Unwinding after step f failed, as the code does it.  acquired = 1..f-1. *)
-(* alloc_cache: catch -> release_cache: dealloc frees memory if set,       *)
-(*   deletes jit if set (destructor unmaps code), then deletes the struct. *)
-(*   If the JIT constructor throws (mapping failed) the jitObj block is    *)
-(*   freed by the language and cache->jit was never set.                   *)
-(* create_vm: the VM constructor maps code; if that throws the vmObj is    *)
-(*   freed by the language; if allocate() fails `delete vm` runs the       *)
-(*   destructors (unmap code, free scratchpad if set).                     *)
-(* In all cases every acquired step is given back: Released = acquired.    *)
+(* Unwinding after step `failed` threw, written like the code (randomx.cpp,*)
+(* dataset.cpp, virtual_machine.cpp).  A field of the object is assigned    *)
+(* only after its whole right-hand side succeeded, so at the moment of the *)
+(* failure the object holds FieldsSet.  What is given back:                *)
+(*  - byLanguage: a new-expression whose constructor throws frees the      *)
+(*    block it had obtained (jitObj when mapping the code buffer fails in  *)
+(*    the JitCompiler constructor; vmObj when the VM constructor throws);  *)
+(*  - byRelease: the catch block calls randomx_release_cache /             *)
+(*    randomx_release_dataset / `delete vm`: dealloc frees memory if set   *)
+(*    and deletes the JIT compiler if set (its destructor unmaps the code  *)
+(*    buffer); the VM destructors unmap the code buffer and free the       *)
+(*    scratchpad pointer (null at this point: a no-op);                    *)
+(*  - byDelete: the struct / VM object itself.                             *)
+(* If `new randomx_cache()` itself fails nothing was acquired.             *)
+(* DeallocEarlyOut = TRUE is a variant of deallocCache that returns early  *)
+(* when no memory is set: then the JIT compiler of a half-built cache is   *)
+(* never deleted (kept as a knob to show that the invariants are able to   *)
+(* see such a leak: MCAlloc_earlyout.cfg is expected to fail).             *)
 (***************************************************************************)
-Released(op, f, steps, failed) == 1..(failed - 1)
+Idx(steps, n) == IF \E i \in 1..Len(steps) : steps[i].name = n
+                 THEN CHOOSE i \in 1..Len(steps) : steps[i].name = n ELSE 0
+FieldsSet(op, f, steps, failed) ==
+  [struct |-> failed > 1,
+   jit    |-> op = "alloc_cache" /\ f.jit /\ failed > Idx(steps, "code"),
+   code   |-> op = "create_vm" /\ f.jit /\ failed > Idx(steps, "code"),
+   memory |-> FALSE]                     \* the memory / scratchpad request is the last step of every creating call
+Released(op, f, steps, failed) ==
+  LET fs == FieldsSet(op, f, steps, failed)
+      ctorThrew == f.jit /\ op \in {"alloc_cache", "create_vm"} /\ failed = Idx(steps, "code")
+      byLanguage == IF ctorThrew THEN {failed - 1} ELSE {}      \* the block obtained right before the constructor ran
+      byRelease ==
+        CASE op = "alloc_cache" ->
+               IF fs.jit /\ ~(DeallocEarlyOut /\ ~fs.memory) THEN {Idx(steps, "jitObj"), Idx(steps, "code")} ELSE {}
+          [] op = "create_vm" -> IF fs.code THEN {Idx(steps, "code")} ELSE {}
+          [] OTHER -> {}
+      \* alloc_cache / alloc_dataset: the struct exists once step 1 succeeded and is deleted by the release function;
+      \* create_vm: `vm` is assigned only after the constructor returned, `delete vm` on nullptr is a no-op
+      byDelete == CASE op = "create_vm" -> IF fs.struct /\ ~ctorThrew THEN {1} ELSE {}
+                    [] OTHER -> IF fs.struct THEN {1} ELSE {}
+  IN  byLanguage \cup byRelease \cup byDelete
 
 Create(o, op, f, failAt) ==
   /\ obj[o].state = "none" /\ op \in Ops /\ f \in Flags
@@ -78,7 +108,8 @@ Create(o, op, f, failAt) ==
                  \* acquired 1..ff-1, then unwinding releases Released(...)
                  /\ live' = (live \cup {<<o, i>> : i \in 1..(ff - 1)}) \ {<<o, i>> : i \in Released(op, f, steps, ff)}
                  /\ lastCall' = [op |-> op, flags |-> f, failAt |-> failAt, ok |-> FALSE, failed |-> ff,
-                                 requests |-> SubSeq(steps, 1, ff), acquired |-> ff - 1, released |-> ff - 1]
+                                 requests |-> SubSeq(steps, 1, ff), acquired |-> ff - 1,
+                                 released |-> Cardinality(Released(op, f, steps, ff))]
 
 \* release_cache / release_dataset / destroy_vm
 Destroy(o) ==
